@@ -67,7 +67,46 @@ def _cleanup_mpl():
 # --------------------------------------------------------------------------
 
 
-def _chunk(args):
+def _isolated(fn, args):
+    """Run fn(args) in a forked child of this (pristine) worker process and return its
+    result.  Every chunk / candidate therefore starts from the same process state: whatever
+    a run leaves behind in module globals, class attributes or caches of the library under
+    test cannot reach a later chunk, and a chunk is exactly reproducible as a *sequence*."""
+    import pickle
+
+    r, w = os.pipe()
+    pid = os.fork()
+    if pid == 0:
+        code = 0
+        try:
+            os.close(r)
+            data = pickle.dumps(fn(args))
+            with os.fdopen(w, "wb") as f:
+                f.write(data)
+        except BaseException:  # noqa: BLE001
+            import traceback
+
+            try:
+                with os.fdopen(w, "wb") as f:
+                    f.write(pickle.dumps({"__child_error__": traceback.format_exc()}))
+            except Exception:
+                pass
+            code = 3
+        finally:
+            os._exit(code)
+    os.close(w)
+    with os.fdopen(r, "rb") as f:
+        data = f.read()
+    os.waitpid(pid, 0)
+    if not data:
+        raise RuntimeError("isolated child died without a result")
+    out = pickle.loads(data)
+    if isinstance(out, dict) and "__child_error__" in out:
+        raise RuntimeError("isolated child failed:\n" + out["__child_error__"])
+    return out
+
+
+def _chunk_body(args):
     prop, tier, seeds, cap_s = args
     engine = registry.engine_for(prop)
     out = []
@@ -77,10 +116,27 @@ def _chunk(args):
     return out
 
 
+def _chunk(args):
+    return _isolated(_chunk_body, args)
+
+
+def _exec_sequence_body(args):
+    """execute scenarios one after the other in one process; result of the last one"""
+    prop, scenarios, cap_s = args
+    engine = registry.engine_for(prop)
+    res = None
+    for sc in scenarios:
+        res = core.execute_guarded(engine, prop, sc, cap_s)
+    return res
+
+
 def _exec_scenario_job(args):
     prop, scenario, cap_s = args
-    engine = registry.engine_for(prop)
-    return core.execute_guarded(engine, prop, scenario, cap_s)
+    return _isolated(_exec_sequence_body, (prop, [scenario], cap_s))
+
+
+def _exec_sequence_job(args):
+    return _isolated(_exec_sequence_body, args)
 
 
 # --------------------------------------------------------------------------
@@ -146,6 +202,9 @@ def replay_file(prop, path):
     with open(path) as f:
         rep = json.load(f)
     engine = registry.engine_for(prop)
+    for sc in rep.get("preceding_scenarios", []):
+        # scenarios executed earlier in the same process (state left behind by them is part of the history)
+        core.execute_guarded(engine, prop, sc, 600)
     res = core.execute_guarded(engine, prop, rep["scenario"], 600)
     want = rep.get("violation", {}).get("signature")
     sigs = [v["signature"] for v in res["violations"]]
@@ -289,11 +348,29 @@ def main():
         replay_paths = {}
         for sig in unlisted[:max_report]:
             r, v = min(by_sig[sig], key=lambda rv: len(json.dumps(rv[0]["scenario"])))
-            scen, tried = minimise(pool, prop, r["scenario"], sig, cap_s, cfg.get("shrink_budget", 160))
-            res_min = core.execute_guarded(engine, prop, scen, cap_s)
-            vmin = [x for x in res_min["violations"] if x["signature"] == sig]
-            if not vmin:  # should not happen; fall back to the original
-                scen, vmin = r["scenario"], [v]
+            preceding = []
+            alone = _exec_scenario_job((prop, r["scenario"], cap_s))
+            if not any(x["signature"] == sig for x in alone["violations"]):
+                # The violation needs state left behind by runs executed earlier in the same
+                # process (its chunk).  Reproduce it as a sequence and drop what is not needed.
+                idx = (r["seed"] & ((1 << 20) - 1))
+                start = (idx // chunk) * chunk
+                preceding = [engine.generate(prop, core.batch_seed(base_seed, i), tier) for i in range(start, idx)]
+                keep = list(preceding)
+                for i in range(len(preceding)):
+                    cand = [p_ for p_ in keep if p_ is not preceding[i]]
+                    rr = _exec_sequence_job((prop, cand + [r["scenario"]], cap_s))
+                    if any(x["signature"] == sig for x in rr["violations"]):
+                        keep = cand
+                preceding = keep
+                scen, tried = r["scenario"], len(preceding)
+                vmin = [v]
+            else:
+                scen, tried = minimise(pool, prop, r["scenario"], sig, cap_s, cfg.get("shrink_budget", 160))
+                res_min = _exec_scenario_job((prop, scen, cap_s))
+                vmin = [x for x in res_min["violations"] if x["signature"] == sig]
+                if not vmin:  # should not happen; fall back to the original
+                    scen, vmin = r["scenario"], [v]
             path = os.path.join(VERIF, "replays", f"{prop}-{core.digest(sig)}-{r['seed']}.json")
             with open(path, "w") as f:
                 json.dump(
@@ -304,6 +381,7 @@ def main():
                         "base_seed": base_seed,
                         "tier": tier,
                         "env": {"PYTHONHASHSEED": os.environ.get("PYTHONHASHSEED"), "OMP_NUM_THREADS": os.environ.get("OMP_NUM_THREADS")},
+                        "preceding_scenarios": preceding,
                         "scenario": scen,
                         "violation": vmin[0],
                         "shrink_executions": tried,
@@ -314,6 +392,7 @@ def main():
                 )
             replay_paths[sig] = path
 
+    unconfirmed = []
     # ---- confirm replays in fresh interpreters (twice) -------------------------
     for sig, path in replay_paths.items():
         oks = []
@@ -327,8 +406,11 @@ def main():
             print(f"  signature={sig} occurrences={len(by_sig[sig])}")
             exit_code = 1
         else:
-            print(f"harness error: violation {sig} did not replay deterministically ({oks}); file {path}")
-            exit_code = max(exit_code, 2)
+            print(f"unconfirmed: violation {sig} was observed in the batch but its replay file did not reproduce it in a fresh interpreter ({oks}); file {path}")
+            unconfirmed.append(sig)
+    if unconfirmed and exit_code == 0:
+        # something was observed that the simulator cannot reproduce: not a verdict
+        exit_code = 2
     if len(unlisted) > max_report:
         print(f"({len(unlisted) - max_report} further distinct violation signatures not minimised: {unlisted[max_report:]})")
     for sig, (k, n) in sorted(known_hits.items()):
@@ -346,8 +428,8 @@ def main():
                 if r["seed"] not in got or got[r["seed"]][0] != r["digest"]:
                     det["mismatches"] += 1
                     print(f"determinism breach: seed {r['seed']} digest {r['digest']} vs fresh interpreter {got.get(r['seed'])}")
-        if det["mismatches"]:
-            exit_code = max(exit_code, 2)
+        if det["mismatches"] and exit_code == 0:
+            exit_code = 2  # a confirmed, replayable violation is not overridden by this
 
     wall = time.time() - t0
     if not args.no_evidence:
